@@ -373,7 +373,7 @@ func (op *Op) Stop() {
 // successors: a dead process has no background tasks, and the cleanups of its
 // already obsolete tables run now, before file names can be reused.
 func (w *World) SettleDead() {
-	if !w.Quiesce(10 * time.Second) && os.Getenv("VERIF_DEBUG_STALL") != "" {
+	if !w.Quiesce(10*time.Second) && os.Getenv("VERIF_DEBUG_STALL") != "" {
 		buf := make([]byte, 1<<16)
 		buf = buf[:runtime.Stack(buf, true)]
 		fmt.Printf("DEBUG quiesce failed rot=%d swaps=%d idle=%d\n%s\n", w.Rotations, w.FlushSwaps, w.CompactIdle, buf)
